@@ -20,7 +20,9 @@ def contracts(tier):
 
 
 def extra_obligations(tier):
-    return [vform_hash.hash_obligations(), vform_hash.compile_obligations()]
+    from pyvc import solve
+    return [vform_hash.hash_obligations(), vform_hash.compile_obligations(),
+            solve.custom_result('vform:memo-coherence', vform_hash.FV, 'VForm.hash / VForm.add', vform_hash.memo_coherence_obligations)]
 
 
 MANIFEST = {
